@@ -225,7 +225,9 @@ def d2(cx: Cx, ob: Ob) -> None:
                 pass
             gs = [g for g in ctx.guards if g.kind == "guard" and g.line >= lp.line]
             ok = any(g.b is True and op(g.a) == "cmp" and g.a[1] == "in" and g.a[2] == t and g.a[3] == ("gconst", U, "CONTENT_TYPE_TO_RDFLIB_FORMAT") for g in gs)
-            if not ok:
+            if not ok and (U, "CONTENT_TYPE_TO_RDFLIB_FORMAT") in cx.model.__dict__.get("import_time_mutated", ()) and any(g.b is True and op(g.a) == "cmp" and g.a[1] == "in" and g.a[3] == ("gconst", U, "CONTENT_TYPE_TO_RDFLIB_FORMAT") for g in gs):
+                ob.undecide("handle_header tests another spelling of the media type than the one it returns against CONTENT_TYPE_TO_RDFLIB_FORMAT, and that table is filled further at import time: whether it holds the tested spelling exactly when it holds the returned one is not decided")
+            elif not ok:
                 ob.violate(hh.qualname, where(hh, line), "handle_header returns a media type without checking it against the supported result types", detail="unchecked")
             if not any(x == mapped for x in subterms(t)):
                 # the mapping may legitimately live in parse_header - but then types that collapse onto
